@@ -112,8 +112,9 @@ def handleScorer (toks : List String) : Option String := do
         let (ps, rest) ← takeGroups 2 rest
         let ps ← parsePairs ps
         if rest ≠ [] then none else
-        let k1 := toSimdVec (ps.map (·.1))
-        let k2 := toSimdVec (ps.map (·.2))
+        -- repaired `to_simd_vec`: missing lanes are filled with the invalid id (U31::MAX)
+        let k1 := toSimdVecPad 2147483647 ps.length (ps.map (·.1))
+        let k2 := toSimdVecPad 2147483647 ps.length (ps.map (·.2))
         pure (base ++ " acc " ++ showO (accumulate true s k1 k2) ++
           " accavx2 " ++ showO (accumulateAvx2 true s k1 k2))
       | _ => none
